@@ -246,11 +246,15 @@ type HTTPError struct {
 }
 
 type GRPC struct {
-	Metadata []Loc  `json:"metadata,omitempty"`
-	Headers  []Loc  `json:"headers,omitempty"`
-	Trailers []Loc  `json:"trailers,omitempty"`
-	Code     string `json:"code,omitempty"`
-	ErrCodes []struct {
+	// Message / RespMessage: attributes listed explicitly with Message(func(){ Attribute(..) }) in the
+	// request / response (the unlisted, unmapped ones still travel in the message)
+	Message     []Loc  `json:"message,omitempty"`
+	RespMessage []Loc  `json:"resp_message,omitempty"`
+	Metadata    []Loc  `json:"metadata,omitempty"`
+	Headers     []Loc  `json:"headers,omitempty"`
+	Trailers    []Loc  `json:"trailers,omitempty"`
+	Code        string `json:"code,omitempty"`
+	ErrCodes    []struct {
 		Name string `json:"name"`
 		Code string `json:"code"`
 	} `json:"errors,omitempty"`
